@@ -413,25 +413,110 @@ theorem nulFree_split (pre post : List In) (a b : Bytes) :
   · intro ⟨h1, ⟨ha, hb⟩, h3⟩; exact ⟨h1, ha, hb, h3⟩
   · intro ⟨h1, ha, hb, h3⟩; exact ⟨h1, ⟨ha, hb⟩, h3⟩
 
+theorem nulFree_errTail (pre post : List In) (a : Bytes) (ha : (0 : UInt8) ∉ a) :
+    NulFree (pre ++ In.chars a :: In.err :: post) ↔ NulFree (pre ++ In.err :: post) := by
+  simp only [nulFree_append, nulFree_cons, In.nulFree]
+  constructor
+  · intro ⟨h1, _, h3⟩; exact ⟨h1, h3⟩
+  · intro ⟨h1, h3⟩; exact ⟨h1, ha, h3⟩
+
+/-! ### a failed parser stays failed -/
+
+theorem errFinal_split (f : Bool) (pre post : List In) (a b : Bytes) :
+    errFinalFrom f (pre ++ In.chars (a ++ b) :: post) = errFinalFrom f (pre ++ In.chars a :: In.chars b :: post) := by
+  induction pre generalizing f with
+  | nil => simp [errFinalFrom]
+  | cons i rest ih =>
+    cases i <;> cases f <;> simp [errFinalFrom, ih]
+
+theorem errFinal_errTail (f : Bool) (pre post : List In) (a : Bytes) :
+    errFinalFrom f (pre ++ In.chars a :: In.err :: post) = errFinalFrom f (pre ++ In.err :: post) := by
+  induction pre generalizing f with
+  | nil => simp [errFinalFrom]
+  | cons i rest ih =>
+    cases i <;> cases f <;> simp [errFinalFrom, ih]
+
+theorem errFinal_suffix (f : Bool) (pre post : List In) (h : errFinalFrom f (pre ++ In.err :: post) = true) :
+    errFinalFrom true post = true := by
+  induction pre generalizing f with
+  | nil => simpa [errFinalFrom] using h
+  | cons i rest ih =>
+    cases i <;> cases f <;> simp [errFinalFrom] at h <;> exact ih _ h
+
+theorem errFinal_append_reset (f : Bool) (a r : List In) :
+    errFinalFrom f (a ++ In.reset :: r) = (errFinalFrom f a && errFinalFrom false r) := by
+  induction a generalizing f with
+  | nil => simp [errFinalFrom]
+  | cons i rest ih =>
+    cases i <;> cases f <;> simp [errFinalFrom, ih]
+
+theorem same_errFinal {l l' : List In} (h : SameUpToCharSplit l l') (f : Bool) :
+    errFinalFrom f l = errFinalFrom f l' := by
+  induction h with
+  | refl l => rfl
+  | split pre a b post => exact errFinal_split f pre post a b
+  | errTail pre a post _ => exact errFinal_errTail f pre post a
+  | symm _ ih => exact ih.symm
+  | trans _ _ ih1 ih2 => exact ih1.trans ih2
+
+/-- after a failure nothing that happens before the next reset depends on the pending text -/
+theorem aRun_failed (σ₁ σ₂ : Abs) (post : List In) (hd : σ₁.depth = σ₂.depth) (hp : σ₁.path = σ₂.path)
+    (h : errFinalFrom true post = true) : aRun σ₁ post = aRun σ₂ post := by
+  induction post generalizing σ₁ σ₂ with
+  | nil => rfl
+  | cons i rest ih =>
+    cases i with
+    | start n a => simp [errFinalFrom] at h
+    | end_ n => simp [errFinalFrom] at h
+    | chars d =>
+      simp only [aRun, aStep]
+      have h' : errFinalFrom true rest = true := by simpa [errFinalFrom] using h
+      have := ih (aChars σ₁ d) (aChars σ₂ d)
+        (by unfold aChars; rw [hd]; split <;> simp [hd])
+        (by unfold aChars; rw [hd]; split <;> simp [hp]) h'
+      rw [this]
+    | err =>
+      simp only [aRun, aStep]
+      have h' : errFinalFrom true rest = true := by simpa [errFinalFrom] using h
+      rw [ih σ₁ σ₂ hd hp h']
+    | reset => simp only [aRun, aStep]
+
+theorem aRun_errTail (σ : Abs) (pre post : List In) (a : Bytes) (f : Bool)
+    (h : errFinalFrom f (pre ++ In.err :: post) = true) :
+    aRun σ (pre ++ In.chars a :: In.err :: post) = aRun σ (pre ++ In.err :: post) := by
+  rw [aRun_append, aRun_append]
+  cases hx : aExec σ pre with
+  | error e => rfl
+  | ok σ' =>
+    have hq := errFinal_suffix f pre post h
+    have : aRun (aChars σ' a) post = aRun σ' post :=
+      aRun_failed _ _ post (by unfold aChars; split <;> rfl) (by unfold aChars; split <;> rfl) hq
+    simp [aRun, aStep, this]
+
 theorem same_nulFree {l l' : List In} (h : SameUpToCharSplit l l') : NulFree l ↔ NulFree l' := by
   induction h with
   | refl l => exact Iff.rfl
   | split pre a b post => exact nulFree_split pre post a b
+  | errTail pre a post ha => exact nulFree_errTail pre post a ha
   | symm _ ih => exact ih.symm
   | trans _ _ ih1 ih2 => exact ih1.trans ih2
 
-theorem same_aRun {l l' : List In} (h : SameUpToCharSplit l l') (hn : NulFree l) (σ : Abs) :
+theorem same_aRun {l l' : List In} (h : SameUpToCharSplit l l') (hn : NulFree l) (f : Bool)
+    (he : errFinalFrom f l = true) (σ : Abs) :
     aRun σ l = aRun σ l' := by
   induction h generalizing σ with
   | refl l => rfl
+  | errTail pre a post _ =>
+    exact aRun_errTail σ pre post a f (by rw [← errFinal_errTail]; exact he)
   | split pre a b post =>
     have : NulFree (pre ++ In.chars a :: In.chars b :: post) := (nulFree_split pre post a b).mp hn
     have ha : (0 : UInt8) ∉ a := by
       have := ((nulFree_cons _ _).mp ((nulFree_append _ _).mp this).2).1
       exact this
     exact aRun_split σ pre post a b ha
-  | symm h ih => exact (ih ((same_nulFree h).mpr hn) σ).symm
-  | trans h1 _ ih1 ih2 => exact (ih1 hn σ).trans (ih2 ((same_nulFree h1).mp hn) σ)
+  | symm h ih => exact (ih ((same_nulFree h).mpr hn) (by rw [same_errFinal h]; exact he) σ).symm
+  | trans h1 _ ih1 ih2 =>
+    exact (ih1 hn he σ).trans (ih2 ((same_nulFree h1).mp hn) (by rw [← same_errFinal h1]; exact he) σ)
 
 theorem same_context {l l' : List In} (h : SameUpToCharSplit l l') (p q : List In) :
     SameUpToCharSplit (p ++ l ++ q) (p ++ l' ++ q) := by
@@ -439,6 +524,9 @@ theorem same_context {l l' : List In} (h : SameUpToCharSplit l l') (p q : List I
   | refl l => exact .refl _
   | split pre a b post =>
     have := SameUpToCharSplit.split (p ++ pre) a b (post ++ q)
+    simpa [List.append_assoc] using this
+  | errTail pre a post ha =>
+    have := SameUpToCharSplit.errTail (p ++ pre) a (post ++ q) ha
     simpa [List.append_assoc] using this
   | symm _ ih => exact .symm ih
   | trans _ _ ih1 ih2 => exact .trans ih1 ih2
